@@ -87,11 +87,211 @@ impl Space for FeatureMatrix {
     }
 }
 
+/// Long sessions on ONE object of each stateful-looking kind: a lookup structure must not start
+/// allocating (building an index, memoising) after some number of queries.
+struct Sessions {
+    rounds: usize,
+}
+impl Space for Sessions {
+    fn name(&self) -> String {
+        format!("long sessions on one object: {} rounds of every-symbol requirement+definition queries on one SymbolVersionTable (8 needed files x 8 aux, 4 definitions, 512 symbols), of every-name finds on one SysV and one GNU hash table (200 symbols), of every-offset gets on one StringTable, of get/iter on one ParsingTable, and of every accessor on one ElfBytes (tiny-full and wide objects); 4 encodings; 0 allocation calls over the whole session and the last round answers like the first", self.rounds)
+    }
+    fn size(&self) -> u64 {
+        4 * 5
+    }
+    fn hang_secs(&self) -> u64 {
+        300
+    }
+    fn describe(&self, idx: u64) -> Value {
+        let obj = ["SymbolVersionTable", "SysV+GNU hash tables", "StringTable+ParsingTable", "ElfBytes(tiny-full)", "ElfBytes(wide)"][(idx / 4) as usize];
+        json!({"encoding": refmodel::layout::ENCS[(idx % 4) as usize].name(), "object": obj, "rounds": self.rounds})
+    }
+    fn run(&self, idx: u64, out: &mut Outcome) {
+        use crate::alloc::{reset_stats, stats, subject};
+        use crate::util::Fnv;
+        use elf::endian::AnyEndian;
+        use refmodel::hashes::*;
+        use refmodel::layout::*;
+        use refmodel::symver::*;
+        let enc = ENCS[(idx % 4) as usize];
+        let e = if enc.order == Order::Lsb { AnyEndian::Little } else { AnyEndian::Big };
+        let c = if enc.class == Class::C32 { elf::file::Class::ELF32 } else { elf::file::Class::ELF64 };
+        let rounds = self.rounds;
+        let what = (idx / 4) as usize;
+        reset_stats();
+        // each arm returns (digest of the first round, digest of the last round, crate calls)
+        let r: Result<(u64, u64, u64), String> = match what {
+            0 => {
+                let mut needs = Vec::new();
+                let mut next = 2u16;
+                for f in 0..8 {
+                    let mut auxes = Vec::new();
+                    for j in 0..8 {
+                        auxes.push(Aux { name: format!("V_{f}.{j}").into_bytes(), hash: 0x1000 + (f * 8 + j) as u32, flags: 0, other: next });
+                        next += 1;
+                    }
+                    needs.push(Need { file: format!("lib{f}.so").into_bytes(), auxes });
+                }
+                let defs: Vec<Def> = (0..4).map(|d| Def { ndx: next + d, flags: 0, hash: 0x2000 + d as u32, names: vec![format!("D{d}").into_bytes(), format!("D{d}.parent").into_bytes()] }).collect();
+                let versym: Vec<u16> = (0..512u32).map(|i| (i % (next as u32 + 6)) as u16 | if i % 5 == 0 { 0x8000 } else { 0 }).collect();
+                let mut strs = StrTab::new();
+                let vn = build_verneed(enc, &needs, VerLayout::Contiguous, &mut strs);
+                let vd = build_verdef(enc, &defs, VerLayout::Contiguous, &mut strs);
+                let vs = build_versym(enc.order, &versym);
+                subject(|| {
+                    use elf::gnu_symver::*;
+                    let st = elf::string_table::StringTable::new(&strs.bytes);
+                    let t = SymbolVersionTable::new(
+                        VersionIndexTable::new(e, c, &vs),
+                        Some((VerNeedIterator::new(e, c, needs.len() as u64, 0, &vn), st)),
+                        Some((VerDefIterator::new(e, c, defs.len() as u64, 0, &vd), st)),
+                    );
+                    let (mut first, mut last, mut calls) = (0u64, 0u64, 0u64);
+                    for r in 0..rounds {
+                        let mut f = Fnv::new();
+                        for i in 0..514usize {
+                            calls += 2;
+                            if let Ok(Some(q)) = t.get_requirement(i) {
+                                f.u64(q.hash as u64);
+                                f.bytes(q.name.as_bytes());
+                            }
+                            if let Ok(Some(d)) = t.get_definition(i) {
+                                f.u64(d.hash as u64);
+                                for n in d.names.flatten() {
+                                    f.bytes(n.as_bytes());
+                                }
+                            }
+                        }
+                        if r == 0 {
+                            first = f.get();
+                        }
+                        last = f.get();
+                    }
+                    (first, last, calls)
+                })
+            }
+            1 => {
+                let mut names: Vec<Vec<u8>> = vec![vec![]];
+                names.extend((0..200).map(|i| format!("sym_{i}_{}", i * 7919 % 13).into_bytes()));
+                let (strtab, offs) = build_strtab(&names);
+                let symtab = build_symtab(enc, &offs);
+                let sysv = build_sysv(enc.order, &names, 17);
+                let g = build_gnu(enc, &names[..1], &names[1..], 16, 2, 6);
+                let (gstr, goffs) = build_strtab(&g.sym_names);
+                let gsym = build_symtab(enc, &goffs);
+                subject(|| {
+                    let st = elf::string_table::StringTable::new(&strtab);
+                    let sy = elf::symbol::SymbolTable::new(e, c, &symtab);
+                    let gst = elf::string_table::StringTable::new(&gstr);
+                    let gsy = elf::symbol::SymbolTable::new(e, c, &gsym);
+                    let h = elf::hash::SysVHashTable::new(e, c, &sysv).ok();
+                    let gh = elf::hash::GnuHashTable::new(e, c, &g.section).ok();
+                    let (mut first, mut last, mut calls) = (0u64, 0u64, 0u64);
+                    for r in 0..rounds {
+                        let mut f = Fnv::new();
+                        for n in names.iter().skip(1).map(|n| n.as_slice()).chain([b"absent".as_slice(), b"".as_slice()]) {
+                            calls += 2;
+                            if let Some(h) = &h {
+                                if let Ok(Some((i, _))) = h.find(n, &sy, &st) {
+                                    f.u64(i as u64);
+                                }
+                            }
+                            if let Some(gh) = &gh {
+                                if let Ok(Some((i, _))) = gh.find(n, &gsy, &gst) {
+                                    f.u64(i as u64 ^ 0x5555);
+                                }
+                            }
+                        }
+                        if r == 0 {
+                            first = f.get();
+                        }
+                        last = f.get();
+                    }
+                    (first, last, calls)
+                })
+            }
+            2 => {
+                let tab: Vec<u8> = (0..3000usize).map(|i| if i % 11 == 0 { 0 } else { b'a' + (i % 26) as u8 }).collect();
+                let ent = layout(Kind::Sym, enc.class).size;
+                let data: Vec<u8> = (0..ent * 100 + 3).map(|i| (i * 31 % 251) as u8).collect();
+                subject(|| {
+                    let st = elf::string_table::StringTable::new(&tab);
+                    let t = elf::symbol::SymbolTable::new(e, c, &data);
+                    let (mut first, mut last, mut calls) = (0u64, 0u64, 0u64);
+                    for r in 0..rounds {
+                        let mut f = Fnv::new();
+                        for off in 0..tab.len() + 2 {
+                            calls += 1;
+                            if let Ok(s) = st.get_raw(off) {
+                                f.u64(s.len() as u64);
+                            }
+                        }
+                        for i in 0..t.len() + 2 {
+                            calls += 1;
+                            if let Ok(y) = t.get(i) {
+                                f.u64(y.st_value);
+                            }
+                        }
+                        for y in t.iter() {
+                            f.u64(y.st_size);
+                        }
+                        if r == 0 {
+                            first = f.get();
+                        }
+                        last = f.get();
+                    }
+                    (first, last, calls)
+                })
+            }
+            _ => {
+                let bytes = if what == 3 { crate::skeleton::tiny_full(enc, refmodel::image::TableOrder::Linker).0.bytes } else { crate::skeleton::wide_shapes()[(idx % 4) as usize * 2].bytes.clone() };
+                let reps = (rounds / 8).max(4);
+                subject(|| {
+                    use crate::driver::*;
+                    let (mut first, mut last, mut calls) = (0u64, 0u64, 0u64);
+                    // the driver opens the file once per observation: here ONE ElfBytes object serves all rounds
+                    if let Ok(f) = elf::ElfBytes::<AnyEndian>::minimal_parse(&bytes) {
+                        for r in 0..reps {
+                            let mut sink = HashSink::new();
+                            observe_open(&f, &bytes, &mut sink, &Opts { crafted: false });
+                            calls += sink.calls;
+                            if r == 0 {
+                                first = sink.h.get();
+                            }
+                            last = sink.h.get();
+                        }
+                    }
+                    (first, last, calls)
+                })
+            }
+        };
+        let st = stats();
+        match r {
+            Err(m) => out.violate(format!("panic:session in {}", super::slice_oracles::panic_site(&m)), m),
+            Ok((first, last, calls)) => {
+                out.transitions += calls;
+                if st.calls > 0 {
+                    out.violate(
+                        format!("alloc:long session on one {}", ["SymbolVersionTable", "hash table", "StringTable/ParsingTable", "ElfBytes", "ElfBytes"][what]),
+                        format!("{} heap allocation call(s), largest {} bytes, during {} rounds of queries on one object ({})", st.calls, st.max_req, rounds, enc.name()),
+                    );
+                }
+                if first != last {
+                    out.violate("session:answers drift", format!("round {} answers differently from round 1 ({})", rounds, enc.name()));
+                }
+                out.alloc_calls += st.calls;
+                out.nontrivial(first ^ idx);
+            }
+        }
+    }
+}
+
 pub fn build(tier: Tier) -> CheckDef {
     let (mut spaces, bounds) = spaces_for(tier, Mode::ZeroAlloc, Also::ZeroAlloc, "C06 zero alloc");
     // long chains, large tables and link structures under the same zero-allocation demand
     super::c16_graphs::ZERO_ALLOC_MODE.store(true, std::sync::atomic::Ordering::Relaxed);
     spaces.extend(super::c16_graphs::spaces(tier));
+    spaces.push(Box::new(Sessions { rounds: tier.pick(64, 512) }));
     spaces.push(Box::new(FeatureMatrix));
     CheckDef {
         prop: "C06",
